@@ -127,7 +127,9 @@ class Not(qcore.Query):
     def normalize(self):
         q = self.query.normalize()
         if q is qcore.NullQuery:
-            return q
+            # The negation of "nothing" is "everything"
+            from whoosh.query import Every
+            return Every()
         else:
             return self.__class__(q, boost=self.boost)
 
